@@ -41,6 +41,11 @@ type cwRun struct {
 	doneCnt atomic.Int64
 	closed  bool // the shard was closed by a task
 	closeStarted bool
+	attempt      int
+	seqBehind    string
+	seqBehindTxt string
+	plantFile    immutable.TSSPFile
+	plantUnlock  func()
 	closeStep    int
 	trace   []string
 	guide   []string
@@ -94,7 +99,7 @@ func cwExecOnce(c CCase, env *core.Env, attempt int) *core.Outcome {
 		c.MaxSteps = 400
 	}
 	run := &cwRun{c: c, env: env, out: out, prop: prop, fs: simfs.Install(), h: newCwHist(c), rnd: core.NewRand(c.SchedSeed),
-		seen: map[[2]int]bool{}, guide: append([]string(nil), c.Sched...), dbg: os.Getenv("CW_DEBUG") != ""}
+		attempt: attempt, seen: map[[2]int]bool{}, guide: append([]string(nil), c.Sched...), dbg: os.Getenv("CW_DEBUG") != ""}
 	run.sch = newCwSched(c.ReadGate, c.ReadNth)
 	run.sch.dbg = run.dbg
 	defer run.cleanup()
@@ -191,6 +196,10 @@ func cwExecOnce(c CCase, env *core.Env, attempt int) *core.Outcome {
 
 func (run *cwRun) cleanup() {
 	run.sch.freeRun()
+	if run.plantUnlock != nil {
+		run.plantUnlock()
+		run.plantUnlock = nil
+	}
 	// operations still in flight (after a violation) run to completion ungated
 	for t0 := time.Now(); run.anyRunning() && time.Since(t0) < 3*time.Second; {
 		time.Sleep(2 * time.Millisecond)
@@ -214,7 +223,16 @@ func (run *cwRun) cleanup() {
 
 func (run *cwRun) open(dir, from string) error {
 	if from != "" {
-		if err := simfs.CopyTree(from, dir); err != nil {
+		var err error
+		for try := 0; try < 5; try++ {
+			// (the 200 ms file collector of the table store may still be unlinking files)
+			_ = os.RemoveAll(dir)
+			if err = simfs.CopyTree(from, dir); err == nil {
+				break
+			}
+			time.Sleep(250 * time.Millisecond)
+		}
+		if err != nil {
 			panic(core.InfraPanic("copy tree: " + err.Error()))
 		}
 		if err := simfs.RelocateTxn(dir, filepath.Dir(dir), dir); err != nil {
@@ -485,6 +503,22 @@ func (run *cwRun) startOp(i int) *cwTaskRun {
 			tr.err = sh.DropMeasurement(context.Background(), sMstName(op.M))
 		case "close":
 			tr.err = cwCloseNode(node)
+		case "plant_a":
+			// detector self-test (never generated): take the read lock of the first
+			// ordered data file of measurement 0, as tsspFile.LoadIdTimes does on entry
+			files, ok := sh.immTables.GetTSSPFiles(sMstName(0), true)
+			if ok && files != nil && files.Len() > 0 {
+				f := files.Files()[0]
+				immutable.UnrefFilesReader(files.Files()...)
+				immutable.UnrefFiles(files.Files()...)
+				run.plantFile = f
+				run.plantUnlock = immutable.VerifHoldFileRLock(f)
+			}
+		case "plant_b":
+			// ... and read-lock it again while Close is queued for the write lock
+			if run.plantFile != nil {
+				_ = run.plantFile.IsOrder()
+			}
 		}
 	}()
 	<-ready
@@ -642,6 +676,16 @@ func (run *cwRun) observe() *core.Violation {
 			run.out.Log("s%d seq_reload loading=%v", run.step, l)
 			if l {
 				run.out.Probes["sequencer reload in flight across scheduler steps"]++
+			} else {
+				// diagnostics only: does the freshly loaded sequencer know the newest
+				// time of every series in every ordered file?
+				for m := 0; m < run.c.NMst; m++ {
+					if a, txt := cwDiag(run.node, m); a["seq_behind"] == "yes" {
+						run.seqBehind = "yes"
+						run.seqBehindTxt = txt
+						run.out.Probes["sequencer reload finished behind an ordered file"]++
+					}
+				}
 			}
 		}
 	}
@@ -662,11 +706,24 @@ func (run *cwRun) observe() *core.Violation {
 	return nil
 }
 
-func cwSeqLoading(n *sNode) (l bool) {
-	defer func() { _ = recover() }()
-	seq := n.sh.immTables.Sequencer()
-	defer seq.UnRef()
-	return seq.IsLoading()
+func cwSeqLoading(n *sNode) bool {
+	ch := make(chan bool, 1)
+	go func() {
+		defer func() {
+			if r := recover(); r != nil {
+				ch <- false
+			}
+		}()
+		seq := n.sh.immTables.Sequencer()
+		defer seq.UnRef()
+		ch <- seq.IsLoading()
+	}()
+	select {
+	case l := <-ch:
+		return l
+	case <-time.After(300 * time.Millisecond):
+		return false
+	}
 }
 
 func (run *cwRun) finished(tr *cwTaskRun) *core.Violation {
@@ -771,7 +828,7 @@ func cwTrim(s string, n int) string {
 func cwInnerFrames(st string) string {
 	var fr []string
 	for _, l := range strings.Split(st, "\n") {
-		if strings.HasPrefix(l, "github.com/openGemini/openGemini/") && !strings.Contains(l, "verifsim") && !strings.Contains(l, ".cw") && !strings.Contains(l, "zz_verif") {
+		if strings.HasPrefix(l, "github.com/openGemini/openGemini/") && !strings.Contains(l, "verifsim") && !strings.Contains(l, ".cw") && !strings.Contains(l, "cwRun") && !strings.Contains(l, "zz_verif") {
 			f := strings.TrimPrefix(l, "github.com/openGemini/openGemini/")
 			if i := strings.LastIndex(f, "("); i > 0 {
 				f = f[:i]
@@ -821,7 +878,7 @@ func (run *cwRun) anyUnfinished() bool {
 }
 
 func (run *cwRun) loop() *core.Violation {
-	run.sch.free.Store(false)
+	run.sch.free.Store(run.c.NoGate)
 	doneFn := func() int { return int(run.doneCnt.Load()) }
 	for {
 		run.sch.waitQuiet(doneFn)
@@ -841,7 +898,7 @@ func (run *cwRun) loop() *core.Violation {
 				continue
 			}
 		}
-		if run.step >= run.c.MaxSteps && !run.sch.free.Load() {
+		if run.step >= run.c.MaxSteps && !run.sch.free.Load() && !run.c.NoGate {
 			run.out.Stats["step_bound_reached"]++
 			run.out.Log("s%d bound reached: free run", run.step)
 			run.sch.freeRun()
@@ -891,7 +948,12 @@ func (run *cwRun) loop() *core.Violation {
 			}
 			run.h.opStart(i, op, run.step)
 		}
-		for _, i := range starts {
+		for k, i := range starts {
+			if k > 0 && run.attempt > 0 {
+				// delay sweep between the operations of a burst (one value per attempt)
+				for t0 := time.Now(); time.Since(t0) < time.Duration(run.attempt%40)*5*time.Microsecond; {
+				}
+			}
 			run.startOp(i)
 		}
 	}
